@@ -96,6 +96,23 @@ pub struct RawConn {
     pub traffic_from: Option<usize>,
 }
 
+/// A raw LISTENER (for the library's connect side): returns the listener and its endpoint text.
+pub async fn raw_listen() -> std::io::Result<(tokio::net::TcpListener, String)> {
+    let l = tokio::net::TcpListener::bind(("127.0.0.1", 0)).await?;
+    let port = l.local_addr()?.port();
+    Ok((l, format!("tcp://127.0.0.1:{}", port)))
+}
+
+pub async fn raw_accept(l: &tokio::net::TcpListener) -> std::io::Result<RawConn> {
+    let (s, _) = l.accept().await?;
+    let _ = s.set_nodelay(true);
+    Ok(RawConn {
+        stream: RawStream::Tcp(s),
+        inbuf: vec![],
+        traffic_from: None,
+    })
+}
+
 /// Connect a raw client to the text form of an endpoint returned by bind().
 pub async fn raw_connect(endpoint_text: &str) -> std::io::Result<RawConn> {
     let stream = if let Some(rest) = endpoint_text.strip_prefix("tcp://") {
